@@ -417,9 +417,9 @@ def crash_site(e):
 
 # ---------------------------------------------------------------------------------------------------- sweep
 
-def sweep_line(D, lang, lemma):
+def sweep_line(D, lang, lemma, auxs=None):
     return {"op": "sweep", "lang": lang, "lemma": lemma, "entry": D.entry(lang, lemma), "ts": TENSES, "pes": PES,
-            "ns": NS, "gs": GS if lang == "fr" else ["m"], "auxs": AUXS if lang == "fr" else [None]}
+            "ns": NS, "gs": GS if lang == "fr" else ["m"], "auxs": (auxs or AUXS) if lang == "fr" else [None]}
 
 
 def forms_of(line):
@@ -439,7 +439,7 @@ def work(args):
     chunk, exe = args
     D = _W["D"]
     impl = get_impl()
-    lines = [sweep_line(D, lang, lemma) for lang, lemma in chunk]
+    lines = [sweep_line(D, *v) for v in chunk]
     t0 = time.time()
     answers = core.run_driver(lines, exe)
     t_model = time.time() - t0
@@ -495,9 +495,14 @@ def form_input(lang, lemma, entry, t, pe, n, g, a):
 
 
 def stratum(D, lang, lemma):
+    """class of a verb for the quick tier: table, lexicon aux, pat; for essentially reflexive verbs also what elision
+    looks at (h aspiré, vowel/h initial)"""
     e = D.entry(lang, lemma)
-    return (lang, e.get("tab"), e.get("aux"), tuple(e["pat"]) if isinstance(e.get("pat"), list) else None, e.get("h"),
-            lemma[:1] in "aeiouyhàâéèêëîïôöùü")
+    pat = tuple(e["pat"]) if isinstance(e.get("pat"), list) else None
+    k = (lang, e.get("tab"), e.get("aux"), pat)
+    if pat == ("réfl",):
+        k += (e.get("h"), lemma[:1] in "aeiouyhàâéèêëîïôöùü")
+    return k
 
 
 def select(ctx, D):
@@ -510,10 +515,12 @@ def select(ctx, D):
         seen.setdefault(stratum(D, lang, l), []).append((lang, l))
     chosen = []
     rest = []
+    reps = set()
     for k in sorted(seen, key=repr):
         members = seen[k]
         i = ctx.rng.randrange(len(members))
         chosen.append(members[i])
+        reps.add(members[i])
         rest.extend(members[:i] + members[i + 1:])
     panel = [("en", w) for w in ("be", "have", "do", "can", "will", "go", "eat", "try", "stop", "love", "whiz", "born")] + \
             [("fr", w) for w in ("être", "avoir", "aller", "pouvoir", "manger", "finir", "prendre", "enfuir", "tomber", "monter",
@@ -530,7 +537,10 @@ def select(ctx, D):
     en_rest = [r for r in rest if r[0] == "en"]
     fr_rest = [r for r in rest if r[0] == "fr"]
     chosen += ctx.rng.sample(en_rest, min(k_en, len(en_rest))) + ctx.rng.sample(fr_rest, min(k_fr, len(fr_rest)))
-    return chosen, "one verb of each of the %d (language, table, aux, pat, h, initial-class) classes + fixed panel + seeded sample" % len(seen)
+    # class representatives: no option + one seeded value of .aux(); panel and sample: all four
+    chosen = [(lang, l, [None, ctx.rng.choice(AUXS[1:])]) if ((lang, l) in reps and (lang, l) not in panel) else (lang, l)
+              for lang, l in chosen]
+    return chosen, "one verb of each of the %d (language, table, aux, pat[, h, initial]) classes (no .aux() + one seeded .aux() value) + fixed panel and seeded sample of the other verbs (all four .aux() values)" % len(seen)
 
 
 def check_tables(ctx, D):
@@ -582,6 +592,7 @@ def run(ctx, deep=False):
     verbs, scope = select(ctx, D)
     # chunks: interleave so that the (8x more expensive) French verbs are spread over the workers
     verbs = sorted(verbs, key=lambda v: (v[0], v[1]))
+    pairs = [(v[0], v[1]) for v in verbs]
     nchunks = max(16, min(256, len(verbs) // 40))
     chunks = [verbs[i::nchunks] for i in range(nchunks)]
     chunks = [c for c in chunks if c]
@@ -627,7 +638,7 @@ def run(ctx, deep=False):
     for lang, lemma in MALFORMED:
         for t in ("p", "pc", "bp", "ip", "pp"):
             lines.append(form_input(lang, lemma, D.entry(lang, lemma), t, ctx.rng.choice(PES), ctx.rng.choice(NS), ctx.rng.choice(GS), None))
-    pool_v = verbs if len(verbs) < 3000 else ctx.rng.sample(verbs, 3000)
+    pool_v = pairs if len(pairs) < 3000 else ctx.rng.sample(pairs, 3000)
     for lang, lemma in pool_v[:3000]:
         lines.append(form_input(lang, lemma, D.entry(lang, lemma), ctx.rng.choice(TENSES), ctx.rng.choice(PES), ctx.rng.choice(NS),
                                 ctx.rng.choice(GS), ctx.rng.choice(AUXS) if lang == "fr" else None))
@@ -654,6 +665,8 @@ def run(ctx, deep=False):
                 fails[sig][2] += 1
     for sig, (inp, detail, cnt) in sorted(fails.items()):
         ctx.fail(sig, inp, "%s  [%d form(s) of this run share the signature]" % (detail, cnt))
+        if hasattr(ctx, "fail_counts"):
+            ctx.fail_counts[sig] = cnt
     # WF sweep: entries failing the decidable hypothesis of the theorems must be exactly the ones that fail above
     ctx.notes["wf_sweep"] = {"entries": len(verbs), "not_wf": wf_bad[:50]}
     ctx.notes["forms"] = n
